@@ -26,6 +26,11 @@ pub struct Params {
     /// implementation limit of the cycle searches (RecursionStack, DEFAULT_RECURSION_LIMIT):
     /// more than this many names on the search stack is reported as "too deeply nested".
     pub recursion_limit: Option<usize>,
+    /// Input coercion of a custom scalar is implementation-defined (§3.5).  apollo-compiler's choice
+    /// (validation/value.rs since 1d09582): a *list* literal given to a custom scalar `S` is checked item by
+    /// item against the same type reference, so `[null]` is rejected for `S!` (and for `[S!]`) although
+    /// `{a: [null]}` is accepted; an object literal is opaque apart from §5.6.3 (unique field names) at any depth.
+    pub custom_scalar_list_items_typed: bool,
 }
 
 impl Params {
@@ -36,6 +41,7 @@ impl Params {
             builtin_type_redefinable: false,
             typecheck_schema_directive_arguments: true,
             recursion_limit: Some(32),
+            custom_scalar_list_items_typed: true,
         }
     }
 }
@@ -615,23 +621,58 @@ impl V {
     /// lists, §3.12 non-null).
     fn value_ok(&self, ty: &Ty, v: &ast::Value) -> bool { self.value_err(ty, v).is_none() }
 
+    /// an object literal, at any depth, that names a field twice (§5.6.3)
+    fn literal_has_dup(v: &ast::Value) -> bool {
+        use ast::Value as Val;
+        match v {
+            Val::List(items) => items.iter().any(|x| Self::literal_has_dup(x)),
+            Val::Object(fields) => {
+                let mut names: BTreeSet<&str> = BTreeSet::new();
+                fields.iter().any(|(k, x)| !names.insert(k.as_str()) || Self::literal_has_dup(x))
+            }
+            _ => false,
+        }
+    }
+
+    /// a variable anywhere in the literal (constants only in a type-system document)
+    fn literal_has_variable(v: &ast::Value) -> bool {
+        use ast::Value as Val;
+        match v {
+            Val::Variable(_) => true,
+            Val::List(items) => items.iter().any(|x| Self::literal_has_variable(x)),
+            Val::Object(fields) => fields.iter().any(|(_, x)| Self::literal_has_variable(x)),
+            _ => false,
+        }
+    }
+
     /// None = the literal is accepted; Some(rule) = why not
     fn value_err(&self, ty: &Ty, v: &ast::Value) -> Option<&'static str> {
+        if Self::literal_has_variable(v) { return Some("directive-argument-type"); }
+        if Self::literal_has_dup(v) { return Some("directive-argument-input-field-unique"); }
+        self.value_err2(ty, v, false)
+    }
+
+    /// `nonnull`: the type reference `ty` stood directly under a `!`
+    fn value_err2(&self, ty: &Ty, v: &ast::Value, nonnull: bool) -> Option<&'static str> {
         use ast::Value as Val;
         const BAD: Option<&'static str> = Some("directive-argument-type");
-        if let Val::Variable(_) = v { return BAD; } // constants only in a type-system document
         match ty {
-            Ty::NonNull(inner) => if matches!(v, Val::Null) { BAD } else { self.value_err(inner, v) },
+            Ty::NonNull(inner) => if matches!(v, Val::Null) { BAD } else { self.value_err2(inner, v, true) },
             _ if matches!(v, Val::Null) => None,
             Ty::List(item) => match v {
-                Val::List(items) => items.iter().find_map(|x| self.value_err(item, x)),
+                Val::List(items) => items.iter().find_map(|x| self.value_err2(item, x, false)),
                 // a single value is coerced to a list of one item
-                _ => self.value_err(item, v),
+                _ => self.value_err2(item, v, false),
             },
             Ty::Named(n) => {
                 let Some(t) = self.s.types.get(n) else { return None }; // reported by another rule
                 let ok = match t.kind {
-                    Kind::Scalar if !t.builtin => true, // custom scalar: coercion is implementation-defined
+                    // custom scalar: coercion is implementation-defined
+                    Kind::Scalar if !t.builtin => match v {
+                        Val::List(items) if self.p.custom_scalar_list_items_typed =>
+                            items.iter().all(|x| if matches!(&**x, Val::Null) { !nonnull } else { self.value_err2(ty, x, nonnull).is_none() }),
+                        _ => true,
+                    },
                     Kind::Scalar => match (n.as_str(), v) {
                         ("Int", Val::Int(i)) => i.as_str().parse::<i32>().is_ok(),
                         ("Float", Val::Int(i)) => i.as_str().parse::<f64>().is_ok_and(|f| f.is_finite()),
@@ -648,18 +689,14 @@ impl V {
                     Kind::InputObject => match v {
                         Val::Object(fields) => {
                             let mut names: BTreeSet<&str> = BTreeSet::new();
-                            let mut dup = false;
                             for (k, x) in fields {
-                                if !names.insert(k.as_str()) { dup = true; }
+                                names.insert(k.as_str());
                                 match t.input_fields.iter().find(|f| f.name == k.as_str()) {
                                     None => return BAD,
-                                    Some(f) => if let Some(e) = self.value_err(&f.ty, x) { return Some(e); },
+                                    Some(f) => if let Some(e) = self.value_err2(&f.ty, x, false) { return Some(e); },
                                 }
                             }
-                            if !t.input_fields.iter().all(|f| !f.required() || names.contains(f.name.as_str())) { return BAD; }
-                            // §5.6.3 Input Object Field Uniqueness
-                            if dup { return Some("directive-argument-input-field-unique"); }
-                            true
+                            t.input_fields.iter().all(|f| !f.required() || names.contains(f.name.as_str()))
                         }
                         _ => false,
                     },
